@@ -71,6 +71,38 @@ Fixpoint assign_loop (multi : bool) (files : list fileent) (fid : Z)
         Ok (p :: rest)
   end.
 
+(* [x.unpacksizes[-1] for x, n in zip(folders, nums) for _ in range(n)]: the sizes when there is no SIZE record *)
+Fixpoint last_sizes (fs : list folder) (ns : list Z) : res (list Z) :=
+  match fs, ns with
+  | f :: r, n :: nr =>
+      if n <=? 0 then last_sizes r nr else
+      do v <- py_index (f_unpacksizes f) (-1); do t <- last_sizes r nr;
+      Ok (repeat v (Z.to_nat n) ++ t)
+  | _, _ => Ok []
+  end.
+
+(* SubstreamsInfo.default(folders): what an absent SubStreamsInfo stands for -- one sub-stream per folder, no SIZE
+   list (the size is the folder's), the folder's CRC when it is defined; the same object SubstreamsInfo._read
+   builds for an empty record (Header.parse_substreams on [0]) *)
+Definition default_sub (folders : list folder) : substreams :=
+  let nums := repeat 1 (length folders) in
+  let '(dd, dg) := default_digests nums folders in
+  mkSub nums None dd dg.
+
+(* _real_get_contents stores that object in the header graph it was handed (`main_streams.substreamsinfo = ...`):
+   after `folders = unpackinfo.folders` and `packinfo.packsizes` have been evaluated, and only when there is a
+   FilesInfo (the method returns before that otherwise) *)
+Definition install_sub (h : header) : header :=
+  match h_files h, h_streams h with
+  | Some _, Some st =>
+      match si_folders st, si_pack st, si_sub st with
+      | Some folders, Some _, None =>
+          mkHeader (Some (mkStreams (si_pack st) (si_folders st) (Some (default_sub folders)))) (h_files h) (h_emptyfiles h)
+      | _, _, _ => h
+      end
+  | _, _ => h
+  end.
+
 (* _real_get_contents on a parsed header graph *)
 Definition impl_plans (h : header) : res (list iplan) :=
   match h_files h with
@@ -86,27 +118,14 @@ Definition impl_plans (h : header) : res (list iplan) :=
       | Some st =>
           match si_folders st, si_pack st with
           | Some folders, Some _ =>
-              let has_data := existsb (fun e => negb (e_emptystream e)) files in
-              match si_sub st with
-              | None =>
-                  if has_data then Err EOther     (* subinfo.digestsdefined: AttributeError *)
-                  else assign_loop false files 0 [] [] [] [] 0 0 0 [] (zlen folders)
-              | Some sub =>
-                  do sizes <- (match s_sizes sub with
-                               | Some sz => Ok sz
-                               | None => (* [x.unpacksizes[-1] for x, n in zip(folders, nums) for _ in range(n)] *)
-                                   (fix go (fs : list folder) (ns : list Z) : res (list Z) :=
-                                      match fs, ns with
-                                      | f :: r, n :: nr =>
-                                          if n <=? 0 then go r nr else
-                                          do v <- py_index (f_unpacksizes f) (-1); do t <- go r nr;
-                                          Ok (repeat v (Z.to_nat n) ++ t)
-                                      | _, _ => Ok []
-                                      end) folders (s_nums sub)
-                               end);
-                  assign_loop (negb (zlen folders =? 1)) files 0 (s_nums sub) sizes
-                              (Header.s_digestsdefined sub) (Header.s_digests sub) 0 0 0 [] (zlen folders)
-              end
+              (* if main_streams.substreamsinfo is None: main_streams.substreamsinfo = SubstreamsInfo.default(folders) *)
+              let sub := match si_sub st with Some sub => sub | None => default_sub folders end in
+              do sizes <- (match s_sizes sub with
+                           | Some sz => Ok sz
+                           | None => last_sizes folders (s_nums sub)
+                           end);
+              assign_loop (negb (zlen folders =? 1)) files 0 (s_nums sub) sizes
+                          (Header.s_digestsdefined sub) (Header.s_digests sub) 0 0 0 [] (zlen folders)
           | _, _ => Err EOther                     (* AttributeError on None *)
           end
       end
@@ -161,5 +180,7 @@ Definition assign_dispatch (fn : Z) (a : tree) : tree :=
   | 161 => t_res (t_list t_iplan) (impl_plans (of_header a))
   (* FN 162 impl_plans_of_bytes : (lim bytes) -> res (list iplan)  -- impl parser then impl assignment *)
   | 162 => t_res (t_list t_iplan) (do h <- parse_header (of_TI (tnth a 0)) (of_bytes (tnth a 1)); impl_plans h)
+  (* FN 163 install_sub : header-tree -> header-tree  -- the graph as _real_get_contents leaves it *)
+  | 163 => t_header (install_sub (of_header a))
   | _ => TL [TI (-2)]
   end.
